@@ -43,6 +43,10 @@ def zext( value, new_width ):
 
 def clog2( N ):
   assert N > 0
+  # Exact for integers of any size; math.log( N, 2 ) rounds up for some
+  # powers of two (e.g. 2**29 -> 30).
+  if isinstance( N, int ):
+    return (N-1).bit_length()
   return int( math.ceil( math.log( N, 2 ) ) )
 
 def sext( value, new_width ):
